@@ -95,11 +95,13 @@ fn check<F: Function + MathFunction + 'static>(s: &System, params: &HashMap<Var,
         worst = worst.max(r.abs());
     }
     // fixed parameters sit at their true values, so the system stays consistent
-    // (unknowns of order 1: 1e-3 has never been exceeded; unknowns of order 1e-3 .. 1e-8 against coefficients of 1e3 .. 1e8: the f32
-    //  Levenberg-Marquardt iteration stalls at up to about 1e-2 on the unchanged code, an early exit shows as a residual of order 1)
-    let res_tol = if s.scale == 1.0 { 1e-3 } else { 5e-2 };
-    if !(worst <= res_tol) { bad.push(format!("kind=large-residual backend={backend} residual={worst} n={} fixed={} scale={} start={:?} truth={:?} result={:?} coef={:?}", s.vars.len(), s.fixed.iter().filter(|f| **f).count(), s.scale, s.start, s.truth, (0..s.vars.len()).map(|j| val(j)).collect::<Vec<_>>(), s.coef)); }
-    // (only systems on the dyadic grid are satisfied EXACTLY in f32 at their solution)
+    // unknowns of order 1: 1e-3 has never been exceeded.  Unknowns of order 1e-3 .. 1e-8 against coefficients of 1e3 .. 1e8 (right-hand
+    // sides of order 1..10): the f32 Levenberg-Marquardt iteration sometimes stalls at 1e-2 .. 1e-1 (the recorded finding
+    // stalls-on-tiny-unknowns); an exit that came too early shows as a residual of order 1 and more.
+    let res_tol = if s.scale == 1.0 { 1e-3 } else { 1e-2 };
+    if !(worst <= res_tol) {
+        let kind = if s.scale != 1.0 && worst <= 0.5 { "stalls-on-tiny-unknowns" } else { "large-residual" };
+        bad.push(format!("kind={kind} backend={backend} residual={worst} n={} fixed={} scale={} start={:?} truth={:?} result={:?} coef={:?}", s.vars.len(), s.fixed.iter().filter(|f| **f).count(), s.scale, s.start, s.truth, (0..s.vars.len()).map(|j| val(j)).collect::<Vec<_>>(), s.coef)); }
     if all_start_exact && s.exact {
         for j in 0..s.vars.len() { if !s.fixed[j] && sol[&s.vars[j]].to_bits() != s.start[j].to_bits() {
             bad.push(format!("kind=satisfied-start-moved backend={backend} variable {j}: {} -> {}", s.start[j], sol[&s.vars[j]])); } }
